@@ -165,7 +165,9 @@ def run_seq(job):
                 cls = "preview-does-not-catch-up"
                 # D5: a superseding request was issued while the previewer was held between "request dequeued" and
                 # "process started"; its cancel signal was dropped and the stale, still running preview blocks the new one
-                if hook and superseded_while_parked and len(alive) == 1 and mode in ("slow", "never", "chatty") and starts and starts[-1] != exp:
+                # (in hook mode every dequeued request is parked until released, so a stale preview that is still running was
+                # parked when it was superseded - whether or not the driver had already seen the park when it sent the event)
+                if hook and len(alive) == 1 and mode in ("slow", "never", "chatty") and starts and starts[-1] != exp:
                     cls += ":cancel-lost-before-process-start"
                 res["violation"] = (cls, detail)
             return res
